@@ -694,6 +694,7 @@ func acctSx(r *prng.R, ver wallet.Version, kind int) (sx.V, string) {
 
 func genC15(c *Ctx) {
 	r := c.R
+	genC15R8(c) // 0. first, so that every later case is answered after callers modified in depth what they were handed (c15_r8.go)
 	// 1. addresses: every version x options x keys; the three APIs
 	seen := map[string]string{}
 	na := c.Scale(3, 20)
